@@ -69,7 +69,7 @@ fn response_pdu_with_code(rng: &mut Rng, fc: u8, rtu: bool) -> Vec<u8> {
 }
 
 /// a request whose function code is `fc` (< 0x80); typed variant for modelled codes (or raw custom)
-fn request_with_code(rng: &mut Rng, fc: u8, raw: bool) -> Request<'static> {
+pub fn request_with_code(rng: &mut Rng, fc: u8, raw: bool) -> Request<'static> {
     use Request::*;
     if raw || !MODELLED_REQ.contains(&fc) {
         return Custom(fc, Cow::Owned(rng.bytes_in(0, 6)));
@@ -269,6 +269,20 @@ pub fn gen_c06(out: &mut Out, rng: &mut Rng, thorough: bool) {
                     } else {
                         vec![rsp_code, rng.u8()]
                     };
+                    // the pairs on the diagonal – the reply or the exception of the request's own
+                    // function – under every header variant: the verdict is the conjunction of
+                    // the header test and the function test
+                    if near {
+                        for (tid, unit) in [(0u16, slave), (rng.u16() | 1, slave), (0, slave.wrapping_add(1 + rng.u8() % 254)), (0, if slave == 0xFF { 0 } else { 0xFF })] {
+                            if kind == "rtu" && tid != 0 {
+                                continue;
+                            }
+                            monitor_line(
+                                out,
+                                &format!("cli {kind} {} | call {} r=d{}", hex8(slave), request(&req), hex_raw(&frame(kind, tid, unit, &pdu))),
+                            );
+                        }
+                    }
                     // header variants: right, wrong tid, wrong unit
                     let hv = rng.below(6);
                     let (tid, unit) = match hv {
